@@ -478,6 +478,25 @@ func perturbations(b Route) []pert {
 		}},
 		pert{"ret.add-third", func(r *Route) bool { r.Rets = append([]string{"int"}, r.Rets...); return len(r.Rets) == 3 }},
 	)
+	// the same route with its annotations / its parameters written in the opposite order: order is not part of any rule
+	ps = append(ps, pert{"anns.reversed", func(r *Route) bool {
+		if len(r.Anns) < 2 {
+			return false
+		}
+		for i, j := 0, len(r.Anns)-1; i < j; i, j = i+1, j-1 {
+			r.Anns[i], r.Anns[j] = r.Anns[j], r.Anns[i]
+		}
+		return true
+	}})
+	ps = append(ps, pert{"anns.params-reversed", func(r *Route) bool {
+		if len(r.Params) < 2 {
+			return false
+		}
+		for i, j := 0, len(r.Params)-1; i < j; i, j = i+1, j-1 {
+			r.Params[i], r.Params[j] = r.Params[j], r.Params[i]
+		}
+		return true
+	}})
 	ps = append(ps, pert{"controller.tag.drop", func(r *Route) bool {
 		if r.NoTag {
 			return false
